@@ -771,6 +771,22 @@ class Visitor(ast.NodeVisitor):
                 ).format(func)
             )
 
+        # Python might have never evaluated the parts of a comprehension (*e.g.*, if an iterable is empty, a filter
+        # holds for no item or an earlier operand determined the result for every item). While we can look up
+        # the names for the report, we must not make the calls which Python possibly skipped.
+        if self._visiting_parts_of_comprehension > 0:
+            for arg_node in node.args:
+                self.visit(
+                    node=arg_node.value
+                    if isinstance(arg_node, ast.Starred)
+                    else arg_node
+                )
+
+            for keyword in node.keywords:
+                self.visit(node=keyword.value)
+
+            return PLACEHOLDER
+
         # Short-circuit tracing the all quantifier over a generator expression
         # fmt: off
         if (
